@@ -242,6 +242,12 @@ class LaplacianChannel(BaseChannel):
 
         # Handle complex input
         if torch.is_complex(x):
+            # A noise power (given directly or through the SNR) is the total power of the
+            # complex noise, so each component gets half of it, as in the AWGN channel
+            # (variance 2*scale^2 per component -> divide the scale by sqrt(2)). An explicit
+            # scale is applied to each component as given.
+            if self.scale is None:
+                scale = scale / (2**0.5)
             noise_real = self._get_laplacian_noise(x.real.shape, x.device) * scale
             noise_imag = self._get_laplacian_noise(x.imag.shape, x.device) * scale
             noise = torch.complex(noise_real, noise_imag)
